@@ -257,11 +257,31 @@ fn one_param_net(lr: f32) -> (Value, Network) {
 }
 
 fn replay_earlystop(case: &Value, rep: &mut Report) {
+    // The model's validation losses are ranks (the property only speaks about their order).  Each trajectory is replayed
+    // under several order-preserving embeddings into the floats: plain, one ulp apart, the top rank at +infinity, the
+    // bottom rank at -infinity.  Equal ranks stay equal (plateaus), strict rises stay strict.
+    let ranks: Vec<f32> = vec1(&case["val"]);
+    let (top, bottom) = (ranks.iter().cloned().fold(f32::MIN, f32::max), ranks.iter().cloned().fold(f32::MAX, f32::min));
+    let embeddings: Vec<(&str, Box<dyn Fn(f32) -> f32>)> = vec![
+        ("plain", Box::new(|r| r)),
+        ("ulps", Box::new(|r| f32::from_bits(0.3f32.to_bits() + r as u32))),
+        ("top_is_infinite", Box::new(move |r| if r == top { f32::INFINITY } else { r })),
+        ("bottom_is_minus_infinite", Box::new(move |r| if r == bottom { f32::NEG_INFINITY } else { r })),
+    ];
+    for (name, f) in embeddings.iter() {
+        let script: Vec<f32> = ranks.iter().map(|r| f(*r)).collect();
+        replay_earlystop_with(case, rep, name, script);
+        if !bool_of(&case["p"], "hasval") {
+            break;
+        }
+    }
+}
+
+fn replay_earlystop_with(case: &Value, rep: &mut Report, embedding: &str, script: Vec<f32>) {
     let p = &case["p"];
     let (e, tol, hasval) = (usize_of(p, "e"), usize_of(p, "tol"), bool_of(p, "hasval"));
-    let script: Vec<f32> = vec1(&case["val"]);
     let ran = usize_of(case, "ran");
-    let id = format!("training:earlystop:e{}tol{}val{}print{}:{:?}", e, tol, hasval, p["print"], script);
+    let id = format!("training:earlystop:e{}tol{}val{}print{}:{}:{}", e, tol, hasval, p["print"], embedding, case["val"].to_string());
     let (arch, mut net) = one_param_net(0.01);
     let mut f = || 0.5f32;
     nets::randomize(&mut net, &arch, &mut f);
@@ -291,11 +311,11 @@ fn replay_earlystop(case: &Value, rep: &mut Report) {
                     "C13",
                     if train.len() < ran { "stopped_too_early" } else if train.len() > ran { "stopped_too_late" } else { "history_lengths" },
                     &id,
-                    json!({"expected_epochs": ran, "train": train.len(), "val": val.len(), "acc": acc.len(), "tol": tol, "budget": e, "trajectory": script}),
+                    json!({"expected_epochs": ran, "train": train.len(), "val": val.len(), "acc": acc.len(), "tol": tol, "budget": e, "embedding": embedding, "trajectory": script.iter().map(|v| format!("{}", v)).collect::<Vec<_>>()}),
                     case,
                 );
             } else if hasval && diff_flat_exact(&val, &script[..ran]).is_some() {
-                rep.mismatch("C13", "val_history_contents", &id, json!({"observed": val, "expected": script}), case);
+                rep.mismatch("C13", "val_history_contents", &id, json!({"embedding": embedding, "observed": val.iter().map(|v| format!("{}", v)).collect::<Vec<_>>()}), case);
             }
             rep.nontrivial(id);
         }
